@@ -24,6 +24,14 @@ def instances(which):
         if w == 'U2': out.append(Instance('U2', 2))
         elif w == 'C2': out.append(Instance('C2', 2, regs={(0, 1): '->', (1, 0): '-|', (0, 0): '-?', (1, 1): '-??'}))
         elif w == 'M2': out.append(Instance('M2', 2, regs={(0, 0): '-?', (1, 0): '->'}, implicit=(0,), explicit={1: '(v0 & q) | f1(v1, v0)'}, zero=('g', 'q')))
+        elif w == 'I3':
+            # v0 is an input (no regulator, no function), v1 uninterpreted over (v0, v2), v2 explicit; activation / inhibition constraints
+            out.append(Instance('I3', 3, regs={(0, 0): None, (1, 0): None, (2, 0): None, (0, 1): '->', (1, 1): '-??', (2, 1): '-?', (0, 2): '->', (1, 2): '-|', (2, 2): None},
+                                implicit=(0,), explicit={1: 'f1(v0, v2)', 2: 'v0 & !v1'}, wild=('w',), zero=('g',),
+                                ctx={'w': {'t': 'param', 'name': 'w'}, 'd': {'t': 'and', 'a': [{'t': 'param', 'name': 'w'}, {'t': 'param', 'name': 'g'}]}, 'empty': {'t': 'empty'}, 'full': {'t': 'unit'}}))
+        elif w == 'F2':
+            # fully specified transition structure (the colours only come from the wild-card parameters)
+            out.append(Instance('F2', 2, regs={(0, 0): '-??', (1, 0): '-??', (0, 1): '-??', (1, 1): '-??'}, explicit={0: 'v1 | !v0', 1: '!v0'}))
         elif w == 'U3': out.append(Instance('U3', 3, wild=('w',), zero=()))
         elif w == 'S3': out.append(Instance('S3', 3, regs={(0, 0): None, (1, 1): None, (2, 2): None}, explicit={0: 'f0(v1, v2)', 1: 'f1(v0, v2)', 2: 'f2(v0, v1)'}, wild=('w',), zero=('g',),
                                             ctx={'w': {'t': 'param', 'name': 'w'}, 'd': {'t': 'and', 'a': [{'t': 'param', 'name': 'w'}, {'t': 'param', 'name': 'g'}]}, 'empty': {'t': 'empty'}, 'full': {'t': 'unit'}}))
